@@ -6,7 +6,7 @@ import sys
 
 HERE = os.path.dirname(os.path.dirname(os.path.abspath(__file__)))
 sys.path.insert(0, HERE)
-from driver.props import PROPS, NOT_APPLICABLE  # noqa: E402
+from driver.props import PROPS, NOT_APPLICABLE, available  # noqa: E402
 
 ids = [json.loads(l)["id"] for l in open(os.path.join(HERE, "properties.jsonl"))]
 fixes = subprocess.check_output(["git", "-C", "/repo", "log", "--format=%h", "35ecb8f..HEAD"]).decode().split()
@@ -21,15 +21,15 @@ m = {
         "add_only": True,
     },
     "engines": [
-        {"name": "Engine P (pyvc)", "path": "pyvc/", "serves_properties": sorted(PROPS), "kind_free_text": "contract-based deductive verification: sidecar contracts + AST symbolic executor over the real /repo source -> VCs -> own ground instantiation -> z3 decides the quantifier-free result"},
-        {"name": "Engine B", "path": "bounded/ oracle/", "serves_properties": sorted(PROPS), "kind_free_text": "bounded stand-in: real code vs brute-force world-enumeration oracle on stated scopes; never counted as proved"},
+        {"name": "Engine P (pyvc)", "path": "pyvc/", "serves_properties": sorted(p for p in PROPS if available(p)), "kind_free_text": "contract-based deductive verification: sidecar contracts + AST symbolic executor over the real /repo source -> VCs -> own ground instantiation -> z3 decides the quantifier-free result"},
+        {"name": "Engine B", "path": "bounded/ oracle/", "serves_properties": sorted(p for p in PROPS if available(p)), "kind_free_text": "bounded stand-in: real code vs brute-force world-enumeration oracle on stated scopes; never counted as proved"},
     ],
     "checks": [],
     "notes": "fix: commits made in /repo (each a genuine defect, see known_findings.jsonl): " + " ".join(reversed(fixes)),
     "not_applicable": [],
 }
 for i in ids:
-    if i in PROPS:
+    if i in PROPS and available(i):
         s = PROPS[i]
         m["checks"].append(
             {
